@@ -26,6 +26,8 @@ def levels(tier):
             {"name": "subset", "n": 0, "prelude": TPL, "subset": 2, "alphabet": ["links"], "defaults": ["never"], "pool": POOL5, "ks": [1, 2]},
             {"name": "empty-prefix", "n": 0, "prelude": TPL3, "subset": 2, "alphabet": ["links"], "defaults": ["never"], "pool": POOL6, "ks": [1, 2],
              "orders": 3},
+            {"name": "interleaved", "n": 0, "prelude": TPL + [["links", [[0, 1], [0, 5], [1, 2], [1, 5], [4, 5], [2, 0]]]], "alphabet": ["links"],
+             "defaults": ["never"], "pool": POOL5 + [{"hosts": 3}], "ks": [1, 2], "interleaved": True},
             {"name": "nested-child", "n": 0, "prelude": TPL + [["we", [[2, 5]]]], "subset": 2, "alphabet": ["links"], "defaults": ["never"], "pool": POOL5,
              "ks": [1, 2]},
             {"name": "requery", "n": 1, "prelude": TPL + [["we", [[2, 5]]], ["links", [[0, 1], [1, 2], [4, 2], [3, 0]]]], "alphabet": ["addprefix", "rmprefix", "moveprefix"],
@@ -49,6 +51,9 @@ def harness(E):
         from harness.C09 import codec
         return codec(E, P)
     sel = {}
+    if P.get("interleaved"):
+        t, h, pool = build(E, P)
+        return interleaved(E, P, t, h)
     if P.get("requery"):
         # paginate, edit the prefixes, paginate again with the same parameters: the second answer must follow the edit
         t, h, pool = build(E, P, after_step=lambda t_, h_: paginate_check(E, P, t_, h_, pool_of(h_), "a", sel))
@@ -59,6 +64,42 @@ def harness(E):
 
 def pool_of(h):
     return h.pool
+
+
+def interleaved(E, P, t, h):
+    """two paginations of one webentity (internal only / outbound only) advanced in turns: each must still return
+    exactly its own unpaginated answer"""
+    ref = h.ref
+    alive = h.alive()
+    if not alive:
+        return
+    weid, prefix_lrus = alive[E.choose("we", len(alive))]
+    prefix_lrus = list(prefix_lrus)
+    k = P["ks"][E.choose("k", len(P["ks"]))]
+    runs = []
+    for inte, outb in ((True, False), (False, True)):
+        ok, full = E.call("get_webentity_pagelinks", t.get_webentity_pagelinks, weid, prefix_lrus,
+                          include_inbound=False, include_internal=inte, include_outbound=outb)
+        runs.append({"inte": inte, "outb": outb, "full": [(E.wrap(a), E.wrap(b), w) for a, b, w in full], "got": [], "token": None, "done": False})
+    guard = 0
+    while not all(r["done"] for r in runs):
+        for r in runs:
+            if r["done"]:
+                continue
+            guard += 1
+            E.check(guard <= 40, "pagelinks:terminates", "pagination does not finish")
+            ok, ans = E.call("paginate_webentity_pagelinks", t.paginate_webentity_pagelinks, weid, prefix_lrus,
+                             include_internal=r["inte"], include_outbound=r["outb"], source_page_count=k,
+                             pagination_token=r["token"], _allowed=())
+            r["got"].extend((E.wrap(a), E.wrap(b), w) for a, b, w in ans["pagelinks"])
+            if ans["done"]:
+                r["done"] = True
+            else:
+                r["token"] = ans["token"]
+                E.reach("resumed")
+    for r in runs:
+        match_triples(E, [[a, b, w] for a, b, w in r["got"]], r["full"], "pagelinks:complete")
+    E.observe("interleaved", [[[a, b, w] for a, b, w in r["got"]] for r in runs])
 
 
 def paginate_check(E, P, t, h, pool, tag, sel):
